@@ -28,6 +28,12 @@ PROPS["C19"] = dict(
         "Zrnt.Proofs.C19.merkle_complete",
     ],
     modes=[dict(name="c19")],
+    # regenerated items this property's theorems are about (a failure of any other item is not charged here)
+    regen=["go2lean:MaxU64", "go2lean:MinU64", "go2lean:IntegerSquareroot", "go2lean:IsPowerOfTwo", "go2lean:NextPowerOfTwo",
+           "go2lean:TimeToSlot", "go2lean:TimeAtSlot", "go2lean:SlotToEpoch", "go2lean:EpochStartSlot",
+           "go2lean:ComputeActivationExitEpoch", "go2lean:GetChurnLimit", "go2lean:SlotPrevious", "go2lean:EpochPrevious",
+           "go2lean:CommitteeCount", "go2lean:CheckSlotSpan"],
+    components=["c19"],   # harness packages (go/internal/<name>) this property needs
     level="proof",
     trusted_base=TB_COMMON + [
         "go2lean translator (go/cmd/go2lean, tiny uint64 subset; regenerated every run; also validated differentially by mode c19)",
